@@ -65,31 +65,51 @@ Proof.
 Qed.
 
 (* ------------------------------------------------------------------ release_iff_connect_true *)
-Lemma mrounds_held has r l : mrounds has r l -> r <> Hang -> held_after None (cbs l) = Some None.
+(* the callbacks are balanced (every on-connect(true) got its on-release, no other on-release), or the
+   last on-connect(true) was left pending by an exception in the hold phase and connect() returned False *)
+Definition release_ok (r : out rv) (x : option (option blk)) : Prop :=
+  x = Some None \/ ((exists b, x = Some (Some b)) /\ r = Ret RFalse).
+
+Lemma held_ok_none x : held_ok BNone x = true -> x = Some None.
+Proof. destruct x as [[b|]|]; cbn; congruence. Qed.
+Lemma held_ok_cases r x : held_ok r x = true -> release_ok (final r) x.
+Proof.
+  destruct x as [[b|]|]; cbn; intro H; [|left; reflexivity|discriminate].
+  right. split; [eauto|]. destruct r; try discriminate. destruct e; try discriminate; reflexivity.
+Qed.
+
+Lemma held_startups_none l1 l2 : held_after None (cbs l1) = Some None ->
+  held_after None (cbs (l1 ++ l2)) = held_after None (cbs l2).
+Proof. intro H. rewrite cbs_app, held_after_app, H. reflexivity. Qed.
+Lemma held_term_log has l : held_after None (cbs (term_log has false ++ l)) = held_after None (cbs l).
+Proof. apply held_startups_none. rewrite term_log_cbs. reflexivity. Qed.
+Lemma held_block_none b s l : block_ok b BNone s -> held_after None (cbs (s ++ l)) = held_after None (cbs l).
+Proof. intro B. apply held_startups_none. apply held_ok_none. exact (bo_held _ _ _ B). Qed.
+
+Lemma mrounds_held has r l : mrounds has r l -> r <> Hang -> release_ok r (held_after None (cbs l)).
 Proof.
   induction 1; intro Hnh.
   - congruence.
-  - reflexivity.
-  - rewrite !cbs_app, term_log_cbs. cbn [app]. rewrite held_after_app, (bo_held _ _ _ H). cbv beta iota.
-    rewrite held_after_app, (bo_held _ _ _ H0). cbv beta iota. rewrite held_after_app, (bo_held _ _ _ H1). cbv beta iota. auto.
-  - pose proof (H0 (final_not_hang _ Hnh)) as B. rewrite cbs_app, term_log_cbs. exact (bo_held _ _ _ B).
-  - pose proof (H1 (final_not_hang _ Hnh)) as B.
-    rewrite !cbs_app, term_log_cbs. cbn [app]. rewrite held_after_app, (bo_held _ _ _ H0). exact (bo_held _ _ _ B).
+  - left; reflexivity.
+  - rewrite held_term_log, (held_block_none _ _ _ H), (held_block_none _ _ _ H0), (held_block_none _ _ _ H1). auto.
+  - pose proof (H0 (final_not_hang _ Hnh)) as B. rewrite held_term_log. exact (held_ok_cases _ _ (bo_held _ _ _ B)).
+  - pose proof (H1 (final_not_hang _ Hnh)) as B. rewrite held_term_log, (held_block_none _ _ _ H0).
+    exact (held_ok_cases _ _ (bo_held _ _ _ B)).
   - pose proof (H2 (final_not_hang _ Hnh)) as B.
-    rewrite !cbs_app, term_log_cbs. cbn [app]. rewrite held_after_app, (bo_held _ _ _ H0). cbv beta iota.
-    rewrite held_after_app, (bo_held _ _ _ H1). exact (bo_held _ _ _ B).
+    rewrite held_term_log, (held_block_none _ _ _ H0), (held_block_none _ _ _ H1). exact (held_ok_cases _ _ (bo_held _ _ _ B)).
 Qed.
 
 Theorem release_iff_connect_true_proof : forall o fuel inner s r l s',
-  connect true o fuel inner s = (r, l, s') -> r <> Hang -> held_after None (cbs l) = Some None.
+  connect true o fuel inner s = (r, l, s') -> r <> Hang -> release_ok r (held_after None (cbs l)).
 Proof.
   intros o fuel inner s r l s' H Hnh. destruct (connect_struct _ _ _ _ _ _ _ H) as (pre & body & -> & Hs & Hb).
-  destruct (startup_facts _ Hs) as (_ & _ & _ & Hh). rewrite cbs_app, held_after_app, Hh.
-  destruct Hb as [[-> ->]|[[-> ->]|Hm]]; try reflexivity.
+  destruct (startup_facts _ Hs) as (_ & _ & _ & Hh). rewrite (held_startups_none _ _ Hh).
+  destruct Hb as [[-> ->]|[[-> ->]|Hm]]; try (left; reflexivity).
   exact (mrounds_held _ _ _ Hm Hnh).
 Qed.
 
-(* counting form: as many on-release calls as on-connect calls that returned a true value *)
+(* counting form: as many on-release calls as on-connect calls that returned a true value
+   (one less when an exception ended the hold phase) *)
 Definition n_connect_true (l : list cev) : nat :=
   length (filter (fun c => match c with CConnect _ v => truthy v | _ => false end) l).
 Definition n_release (l : list cev) : nat :=
@@ -109,9 +129,12 @@ Proof.
 Qed.
 
 Theorem release_count_proof : forall o fuel inner s r l s',
-  connect true o fuel inner s = (r, l, s') -> r <> Hang -> n_release (cbs l) = n_connect_true (cbs l).
+  connect true o fuel inner s = (r, l, s') -> r <> Hang ->
+  n_release (cbs l) = n_connect_true (cbs l) \/ (r = Ret RFalse /\ S (n_release (cbs l)) = n_connect_true (cbs l)).
 Proof.
-  intros. pose proof (held_after_count _ _ _ (release_iff_connect_true_proof _ _ _ _ _ _ _ H H0)) as E. cbn in E. lia.
+  intros o fuel inner s r l s' H Hnh.
+  destruct (release_iff_connect_true_proof _ _ _ _ _ _ _ H Hnh) as [E|[[b E] Hr]];
+    pose proof (held_after_count _ _ _ E) as C; cbn in C; [left | right; split; [exact Hr|]]; lia.
 Qed.
 
 (* ------------------------------------------------------------------ connect_stops *)
@@ -197,15 +220,3 @@ Proof.
   exists pre, body. repeat split; auto.
   destruct Hb as [[_ ->]|[[_ ->]|Hm]]; auto. right; right. exact (mrounds_rounds _ _ _ Hm Hnh).
 Qed.
-
-(* ------------------------------------------------------------------ termination: enough fuel never hangs *)
-(* terminate() answers from a finite stream and then true: every loop polls it once per pass *)
-Definition term_bound (s : st) : nat := length (s_term s).
-
-Lemma hd_tl_len {A} (l : list A) d x r : hd_tl l d = (x, r) -> length r <= length l.
-Proof. destruct l; cbn; intro H; inversion H; subst; cbn; lia. Qed.
-
-Definition st_le (s1 s : st) : Prop := term_bound s1 <= term_bound s /\ s_termd s1 = s_termd s.
-Lemma st_le_refl s : st_le s s. Proof. split; auto. Qed.
-Lemma st_le_trans a b c : st_le a b -> st_le b c -> st_le a c.
-Proof. intros [? ?] [? ?]. split; [lia | congruence]. Qed.
